@@ -4,8 +4,11 @@ Stage ``schedules``: (T, n, scenario, choices[<=400]) with the deterministic
 scheduler shim of vlib.sched owning the interleaving of the T workers and the
 consumer at queue-operation granularity.  Scenarios: run to completion;
 abandon after k results (generator closed inside the ``with``); mapped
-function raises on input j; two consecutive imap_unordered on one pool;
-abandon, leave the context, re-enter and run to completion.
+function raises on input j (an Exception, or a BaseException that is not an
+Exception); two consecutive imap_unordered on one pool; abandon, leave the
+context, re-enter and run to completion; abandon WITHOUT closing the
+generator, re-enter, and close the stale generator in the middle of the second
+iteration (what garbage collection does).
 Oracle: completion => Counter(results) == Counter(f(x)) and termination; no
 reachable state is a deadlock (all live participants parked, none enabled) in
 any scenario, including the failing function; after the context is left every
@@ -48,22 +51,27 @@ ASSUMPTIONS = [
     "(arbitrarily slow peers)",
 ]
 
-SCENARIOS = ["complete", "abandon", "fail", "twice", "abandon_reuse"]
+SCENARIOS = ["complete", "abandon", "fail", "fail_base", "twice",
+             "abandon_reuse", "stale_close"]
 
 
 class Boom(Exception):
     pass
 
 
+class BaseBoom(BaseException):
+    """A failure that is not derived from Exception (like SystemExit)."""
+
+
 def f_tag(x):
     return ("r", x)
 
 
-def make_failing(j):
+def make_failing(j, exc=Boom):
 
     def f(x):
         if x == j:
-            raise Boom(f"input {x}")
+            raise exc(f"input {x}")
         return ("r", x)
 
     return f
@@ -143,14 +151,40 @@ def drive(case, pool_cls, ctx_fail, sleeps=None):
                                              range(100, 100 + n2)))
             check_multiset(ctx_fail, out2, n2, "reuse-after-abandon", case,
                            base=100)
-    elif scenario == "fail":
+    elif scenario == "stale_close":
+        # the first iteration is abandoned WITHOUT closing its generator (it
+        # is still referenced); it is closed (as garbage collection would do)
+        # in the middle of a second iteration on the re-entered pool
+        with pool as p:
+            it = iter(p.imap_unordered(wrap(f_tag), range(n)))
+            for _ in range(min(k, n)):
+                try:
+                    next(it)
+                except StopIteration:
+                    break
+        with pool as p:
+            out2 = []
+            it2 = iter(p.imap_unordered(wrap(f_tag), range(100, 100 + n2)))
+            closed = False
+            for r in it2:
+                out2.append(r)
+                if not closed and len(out2) >= max(1, n2 // 3):
+                    it.close()
+                    closed = True
+            if not closed:
+                it.close()
+        check_multiset(ctx_fail, out2, n2, "reuse-after-stale-close", case,
+                       base=100)
+    elif scenario in ("fail", "fail_base"):
         j = k % max(n, 1)
         got = []
+        exc_type = Boom if scenario == "fail" else BaseBoom
         try:
             with pool as p:
-                for r in p.imap_unordered(wrap(make_failing(j)), range(n)):
+                for r in p.imap_unordered(wrap(make_failing(j, exc_type)),
+                                          range(n)):
                     got.append(r)
-        except Boom as exc:
+        except (Boom, BaseBoom) as exc:
             obs["raised"] = repr(exc)
         except sched.SchedAbort:
             raise
@@ -235,8 +269,8 @@ def run_schedules(case, ctx):
     ctx.count("scheduling_points", len(s.trace))
     if s.timeouts_fired:
         ctx.label("timeouts-fired")
-    if s.worker_switches() >= 2 or case["scenario"] in ("abandon", "fail",
-                                                        "abandon_reuse"):
+    if s.worker_switches() >= 2 or case["scenario"] in (
+            "abandon", "fail", "fail_base", "abandon_reuse", "stale_close"):
         h = hashlib.blake2b("|".join(s.trace).encode(),
                             digest_size=6).hexdigest()
         ctx.nontrivial([
@@ -251,9 +285,9 @@ def enumerate_dfs(tier):
         for n in range(0, 4):
             for scenario in SCENARIOS:
                 ks = [0]
-                if scenario in ("abandon", "abandon_reuse"):
+                if scenario in ("abandon", "abandon_reuse", "stale_close"):
                     ks = list(range(0, n + 1))
-                elif scenario == "fail":
+                elif scenario in ("fail", "fail_base"):
                     ks = list(range(0, max(n, 1)))
                 for k in ks:
                     cases.append({
@@ -261,8 +295,8 @@ def enumerate_dfs(tier):
                         "n": n,
                         "scenario": scenario,
                         "k": k,
-                        "n2": 2 if scenario in ("twice",
-                                                "abandon_reuse") else 0,
+                        "n2": 2 if scenario in ("twice", "abandon_reuse",
+                                                "stale_close") else 0,
                         "bound": 1 if tier == "quick" else 2,
                         "budget": 3000 if tier == "quick" else 150000,
                     })
